@@ -145,7 +145,7 @@ PROPS = {
         design_ref="DESIGN.md section 4, C16",
     ),
     "C06": S(
-        safety.C06 + [safety.snap, o.alias1, o.exi1_producers, fmt.mode_rules, e.opt1, e.truth2, safety.idkey1, safety.eqkey1] + layout.RULES + formulas.RULES,
+        safety.C06 + [safety.snap, safety.snap8, o.alias1, o.exi1_producers, fmt.mode_rules, e.opt1, e.truth2, safety.idkey1, safety.eqkey1] + layout.RULES + formulas.RULES,
         explanation="Structural clauses of 'extraction is a pure observation': (ESC-1) in every function that can run during an extraction, every store into persistent state (globals, module-level containers and objects, "
                     "mutable defaults, thread-local state, closure cells of registered hooks, memoising decorators) is enumerated and its stored value must not be derived from a target (value-provenance propagation with id/len/repr/type/code-object sanitisers); "
                     "(ESC-2) no send/throw/close/asend/athrow/aclose/__next__/next() on anything the package did not create itself, and unwrap results are iterated only as FrameIterator/Sequence; "
